@@ -116,7 +116,7 @@ impl PhysLayer {
             #[cfg(test)]
             Self::Mock(x) => x.write_all(data).await,
             #[cfg(stepfunc_dnp3_verif)]
-            Self::Verif(x) => x.write_all(data).await,
+            Self::Verif(x) => x.write_all_to(data, addr).await,
         }
     }
 }
